@@ -128,6 +128,11 @@ def run_batch(c, rec):
         tags["degenerate_axis"] = bool(min(shp) == 1)
     if rec.classify(tags, N > 1 or not is_identity_map(spec)):
         return
+    if spec["kind"] == "mapped" and spec["map"] in gen.COUPLED_MAPS:
+        # a map written for one function couples its values: handing it a matrix of columns is not column-wise by construction
+        # (what must be column-wise for such geometries are the sample-collection conversions, C13/conversions)
+        rec.count("coupled_map_not_batched")
+        return
     G = gen.make_geometry(spec)
     fs = gen.geom_fun_shape(spec)
     P = arr(c["P"]).T  # (par_dim, N)
